@@ -60,6 +60,11 @@ CHECKS = {
         ref='DESIGN.md §4 C10', note=SERVER_NOTE),
  'C04': client('C04', 'Replies are matched to requests by id for every ordering, grouping, duplication and pollution of the reply stream; ids unique; Batch order.', 'DESIGN.md §4 C04'),
  'C05': client('C05', 'Every operation completes exactly once under reply / context end / Close / EOF / Recv error / Send error / undecodable input; hooks exactly once; nothing transmitted after stop.', 'DESIGN.md §4 C05'),
+ 'C18': dict(technique='TLA+ model checking (BridgeImpl, TLC exhaustive, plus a must-fail shared-buffer variant) + model-based replay of TLC behaviours into a real jhttp.Bridge with concurrent HTTP requests under gate control + TLC trace validation against BridgeContract',
+        category='model_checking',
+        text='HTTP bridge: each caller gets exactly the responses to its own calls under its own id texts, object/array and 200/204 rules, invalid members answered statically without reaching a handler, 405/415/error status for refused requests, every valid request run exactly once. '
+             'Design level: spec/BridgeImpl.tla (shared client id allocation interleaved between callers, positional remapping) checked exhaustively for 2-3 callers with colliding ids. Code level: simulated behaviours and directed histories replayed into the real Bridge via httptest inside a synctest bubble (interleaved Client.req / Client.send critical sections, all handler completion orders); traces validated against spec/BridgeContract.tla (responses matched as a multiset; ids compared by JSON value).',
+        ref='DESIGN.md §4 C18', note=SERVER_NOTE),
  'C20': dict(technique='TLA+ model checking (LoopImpl, TLC exhaustive, plus a must-fail F10 variant) + model-based replay of TLC behaviours into the real server.Loop with harness accepter/services/connections under gate control + TLC trace validation against LoopContract',
         category='model_checking',
         text='server.Loop: fresh service and exactly one Finish per connection with its own assigner and exit status, after its server has exited; Loop returns last with nil for a closing error and the accepter\'s error otherwise; context end stops every server; a failed Assigner gets no server, no Finish and a closed connection. '
